@@ -80,12 +80,13 @@ def gen_cell(rng, kind):
     if kind == 's':
         v = values.gen_float(rng, 'SINGLE')
         if rng.random() < 0.05:
-            v = rng.choice([math.inf, -math.inf, math.nan, 0.0, -0.0, 3.4028234663852886e38, -3.4028234663852886e38])
+            # (no infinity or NaN: no cell can hold one since 8040820)
+            v = rng.choice([0.0, -0.0, 3.4028234663852886e38, -3.4028234663852886e38, 1.401298464324817e-45, -1.401298464324817e-45])
         return ('s', v)
     if kind == 'd':
         v = values.gen_float(rng, 'DOUBLE')
         if rng.random() < 0.05:
-            v = rng.choice([math.inf, -math.inf, math.nan, 0.0, -0.0, 1.7976931348623157e308, 2.5, 3.5, -2.5, 0.5, 1.5,
+            v = rng.choice([0.0, -0.0, 1.7976931348623157e308, -1.7976931348623157e308, 5e-324, 2.5, 3.5, -2.5, 0.5, 1.5,
                             32767.5, 32768.5, -32768.5, 2147483647.5, 2147483648.0, -2147483648.5, 1e10, 4.5e15])
         return ('d', v)
     return ('t', values.gen_str(rng, 6))
